@@ -250,7 +250,10 @@ class Search(Contract):
         s1.set_inplace(sm, "match", m)
         s1.set_inplace(sm, "rec", a["string"])
         s1.set_inplace(sm, "shift", VT(tm.I(0)))
-        return [(st, NONE), (s1, sm)]
+        # CPython fact: no string is longer than sys.maxsize (= six.MAXSIZE, the default endpos)
+        text = ex.models.text(st, a["string"])
+        fact = tm.le(tm.slen(text), 2 ** 63 - 1)
+        return [(st.assume(fact), NONE), (s1.assume(fact), sm)]
 
     def model_terms(self, ex, st, a):
         if not isinstance(a["string"], VObj):
